@@ -1193,6 +1193,40 @@ def run_expressions(ctx, bj, sj):
                   "context_json": _jsonable(context), "trim_blocks": False, "lstrip_blocks": False, "environment_options": {}, "bundled": a, "stock": b})
     ctx.extra["expression_cases"] = n
 
+    # ---- name resolution: `o.name` prefers the attribute and falls back to the item, `o['name']` prefers the item, `o|attr('name')` is
+    # attribute only — on dicts whose keys are spelled like dict methods, ordinary dicts, lists, strings, tuples and an object with both
+    class Both:
+        a = "attr-a"
+        items = "attr-items"
+        def __getitem__(self, k):
+            if k in ("a", "items", "k"):
+                return "item-" + str(k)
+            raise KeyError(k)
+    objs = {"dm": {"items": "I", "values": 3, "keys": ["x"], "get": "g", "a": 1, "update": 0}, "dp": {"a": 1, "k": "v"}, "de": {}, "li": [5, 6], "st": "str",
+            "tu": (1, 2), "bo": Both(), "dn": {"a": {"items": 7, "b": 8}}}
+    names = ["items", "values", "keys", "get", "update", "a", "k", "nope", "upper", "count", "0", "1", "__class__", "__len__"]
+    nres = 0
+    for o, nm in itertools.product(objs, names):
+        forms = [f"{o}['{nm}']", f"{o}|attr('{nm}')"] + ([f"{o}.{nm}"] if not nm.startswith("__") else []) + ([f"{o}[{nm}]"] if nm.isdigit() else [])
+        if o == "dn":
+            forms = [f"dn.a.{nm}", f"dn.a['{nm}']", f"dn['a'].{nm}"] if not nm.startswith("__") else []
+        for x in forms:
+            src = "{{ %s is defined }}/{%% if %s is defined %%}{{ %s is callable }}/{%% if %s is not callable %%}{{ %s }}{%% endif %%}{%% endif %%}" % (x, x, x, x, x)
+            def go2(env):
+                try:
+                    return ("ok", guarded(lambda: env.from_string(src).render(**objs)))
+                except Exception as ex:  # noqa: BLE001
+                    return ("err", type(ex).__name__)
+            a, b = go2(benv), go2(senv)
+            nres += 1
+            ctx.case(("name-resolution", x), True)
+            ctx.count("name-resolution:" + ("agree" if a == b else "both-fail" if a[0] == b[0] == "err" else "differ"))
+            if a != b and not (a[0] == "err" and b[0] == "err"):
+                fail(ctx, {"kind": "expression-value-differs-from-stock"}, "attribute / item resolution (`o.name`, `o['name']`, `o|attr('name')`) differs between the bundled engine and stock Jinja2",
+                     {"stream": "differential", "origin": "name-resolution", "templates": {"main": src}, "main": "main", "context": {k: repr(v) for k, v in objs.items() if k != "bo"},
+                      "context_json": _jsonable({k: (list(v) if isinstance(v, tuple) else v) for k, v in objs.items() if k != "bo"}), "trim_blocks": False, "lstrip_blocks": False, "environment_options": {}, "bundled": a, "stock": b})
+    ctx.extra["name_resolution_cases"] = nres
+
 
 def compare_template_set(ctx, bj, sj, tpl, main, context, trim, lstrip, origin, opts=None):
     b = render(bj, tpl, main, context, trim, lstrip, opts=opts)
